@@ -2,7 +2,8 @@
 """Confirm a seeded change delivered by a sub-agent and file it under
 /verif/seeded/<PROP>-<x>/ (patch.diff rebased on /repo HEAD, demo.py, meta.json).
 
-usage: confirm_seed.py <seed-out-dir> <PROP> <x>     e.g. /tmp/seed-out/C17 C17 a
+usage: confirm_seed.py <seed-out-dir> <PROP> <x> [<name>]   e.g. /tmp/seed-out/C17 C17 a
+(files <x>.patch.diff etc. are read, the result is filed as seeded/<PROP>-<name>)
 Checks, in a scratch worktree of /repo HEAD outside /repo and /verif:
   patch applies; the repository's suite still has the 1127 baseline passes and
   no new failure; the demo exits 1 with the change and 0 without it.
@@ -32,6 +33,7 @@ def run_suite(wt):
 
 def main():
     src, prop, x = sys.argv[1:4]
+    outx = sys.argv[4] if len(sys.argv) > 4 else x
     patch = os.path.join(src, x + '.patch.diff')
     demo = os.path.join(src, x + '.demo.py')
     meta = os.path.join(src, x + '.meta.json')
@@ -42,7 +44,7 @@ def main():
         return 1
     base = '/tmp/confirm'
     os.makedirs(base, exist_ok=True)
-    wt = os.path.join(base, '%s-%s' % (prop, x))
+    wt = os.path.join(base, '%s-%s-%d' % (prop, outx, os.getpid()))
     sh(['git', '-C', '/repo', 'worktree', 'remove', '--force', wt])
     r = sh(['git', '-C', '/repo', 'worktree', 'add', '--detach', wt, 'HEAD'])
     try:
@@ -81,7 +83,7 @@ def main():
         out['ok'] = (p >= baseline['passed'] and not out['new_failures']
                      and r1.returncode == 1 and r0.returncode == 0)
         if out['ok']:
-            dst = '/verif/seeded/%s-%s' % (prop, x)
+            dst = '/verif/seeded/%s-%s' % (prop, outx)
             os.makedirs(dst, exist_ok=True)
             with open(os.path.join(dst, 'patch.diff'), 'w') as fh:
                 fh.write(diff)
